@@ -607,7 +607,7 @@ def rt_library():
         'ct': G.CTGate(), 'b': G.BGate(), 'ecr': G.ECRGate(), 'iswap': G.ISwapGate(), 'sqisw': G.SqrtISwapGate(), 'syc': G.SycamoreGate(),
         'xx': G.XXGate(), 'yy': G.YYGate(), 'zz': G.ZZGate(),
         'crx': G.CRXGate(), 'cry': G.CRYGate(), 'crz': G.CRZGate(), 'cp': G.CPGate(), 'rxx': G.RXXGate(), 'ryy': G.RYYGate(), 'rzz': G.RZZGate(),
-        'fsim': G.FSIMGate(), 'cu': G.CUGate(), 'diag': G.DiagonalGate(2),
+        'fsim': G.FSIMGate(), 'cu': G.CUGate(), 'diag': G.DiagonalGate(2), 'mpry': G.MPRYGate(2), 'mprz': G.MPRZGate(2),
         'ccx': G.CCXGate(), 'rccx': G.RCCXGate(), 'iccx': G.IToffoliGate(), 'ccp': G.CCPGate(), 'rc3x': G.RC3XGate(),
         'cu1': ControlledGate(G.U1Gate()), 'cu2': ControlledGate(G.U2Gate()), 'cu3': ControlledGate(G.U3Gate()),
         'cswap': ControlledGate(G.SwapGate()), 'c3x': ControlledGate(G.XGate(), 3), 'c4x': ControlledGate(G.XGate(), 4),
@@ -793,7 +793,7 @@ def rtu_ops(rng, n, nops):
 def enumerate_with_tlc(ctx, out):
     """The model-checking pass: TLC enumerates the program families of QasmGen, checks the invariants and prints the trees."""
     cfg = os.path.join(SPECDIR, 'QasmGen.cfg' if ctx.quick else 'QasmGen_thorough.cfg')
-    r = common.tlc(GEN, cfg, coverage=True, scratch=ctx.scratch, workers=8, timeout=1500, heap='6g')
+    r = common.tlc(GEN, cfg, coverage=True, scratch=ctx.scratch, workers=8, timeout=1500, heap='6g', env=JVM_LONG)
     if not r.ok:
         raise MachineryError('TLC failed on QasmGen.tla (an invariant of the specification itself is violated, or TLC crashed): ' + (r.error or r.out[-1500:]))
     progs = {}
@@ -817,8 +817,11 @@ def pool_map(pool, fn_, jobs):
 
 
 def strip_for_tlc(case):
-    """What TLC reads (text and bookkeeping stay in python)."""
+    """What TLC reads (text and bookkeeping stay in python; the 12-digit parameters only matter for the round trip)."""
     c = {k: v for k, v in case.items() if k not in ('src', 'origin', 'decl_first')}
+    if case['kind'] == 'decode':
+        for who in ('bq', 'qk'):
+            c[who] = dict(c[who], ops=[{k: v for k, v in o.items() if k != 'f'} for o in c[who]['ops']])
     return c
 
 
@@ -836,23 +839,40 @@ def key_of(case, clause, extra):
     return k
 
 
-CHUNK = 3500
+CHUNK = 1800
+# several JVMs run side by side: keep each one's collector small; short runs do not profit from the optimising compiler
+JVM_SHORT = {'JAVA_TOOL_OPTIONS': '-XX:ParallelGCThreads=4 -XX:TieredStopAtLevel=1'}
+JVM_LONG = {'JAVA_TOOL_OPTIONS': '-XX:ParallelGCThreads=4'}
+
+
+def _validate_part(args):
+    import re
+    part, scratch = args
+    _v, st, tr, results = common.batch_validate(CHECK, CHECK_CFG, part, scratch, chunk=CHUNK + 1, workers=6, timeout=1500, env=JVM_SHORT)
+    verdicts = set()
+    for r in results:                      # one chunk per part
+        for m in re.finditer(r'<<\s*"VERDICT"', r.out):
+            v, _ = common._parse_tla_value(r.out, m.start())
+            verdicts.add((v[1] - 1, v[2], v[3], tuple(v[4:])))
+    for idx, step, clause, extra in _v:
+        verdicts.add((idx, step, clause, tuple(extra)))
+    return verdicts, st, tr
 
 
 def validate(cases, ctx, stats):
-    """Batch validation.  TLC wraps tuples longer than 80 columns over several lines (`<< "VERDICT",` ...), which
-    common.parse_prints does not see, so the VERDICT tuples are read again from the raw output of every chunk."""
-    import re
-    _v, st, tr, results = common.batch_validate(CHECK, CHECK_CFG, [strip_for_tlc(c) for c in cases], ctx.scratch, chunk=CHUNK, workers=8, timeout=1500)
-    stats['states'] += st
-    stats['transitions'] += tr
-    verdicts = set()
-    for ci, r in enumerate(results):
-        for m in re.finditer(r'<<\s*"VERDICT"', r.out):
-            v, _ = common._parse_tla_value(r.out, m.start())
-            verdicts.add((ci * CHUNK + v[1] - 1, v[2], v[3], tuple(v[4:])))
-    for idx, step, clause, extra in _v:
-        verdicts.add((idx, step, clause, tuple(extra)))
+    """Batch validation by TLC (QasmCheck.tla), a few JVMs side by side (reading the JSON is the serial part of each).
+    TLC wraps tuples longer than 80 columns over several lines (`<< "VERDICT",` ...), which common.parse_prints does not
+    see, so the VERDICT tuples are read again from the raw output."""
+    from concurrent.futures import ThreadPoolExecutor
+    slim = [strip_for_tlc(c) for c in cases]
+    parts = [(slim[i:i + CHUNK], ctx.scratch) for i in range(0, len(slim), CHUNK)]
+    with ThreadPoolExecutor(max_workers=4) as ex:
+        res = list(ex.map(_validate_part, parts))
+    verdicts = []
+    for pi, (vs, st, tr) in enumerate(res):
+        stats['states'] += st
+        stats['transitions'] += tr
+        verdicts += [(pi * CHUNK + idx, step, clause, extra) for idx, step, clause, extra in vs]
     return sorted(verdicts)
 
 
@@ -1015,9 +1035,9 @@ def run(ctx: Ctx) -> Outcome:
         if c['kind'] == 'rtu' or any(st['k'] in ('app', 'measure', 'reset') for st in c['prog']['stmts']):
             nontrivial.add(common.digest(c.get('prog') or c.get('ops')))
     samples = []
-    for o in ('tlc:struct', 'tlc:expr', 'random', 'rt-mixed'):
+    for o in ('tlc:struct', 'tlc:expr', 'tlc:bind', 'random', 'rt-mixed'):
         for c in all_cases:
-            if c['origin'] == o and len(c.get('src', '')) > 60:
+            if c['origin'] == o and len(c.get('src', '')) > 60 and (o != 'tlc:struct' or len(c['prog']['stmts']) >= 2) and c['bq']['status'] == 'ok' and c['bq']['ops']:
                 samples.append({'origin': o, 'text': c['src'], 'bqskit': [[x['g'], x['q'], x['p']] for x in c['bq']['ops']][:12], 'bqskit_status': c['bq']['status']})
                 break
     out.coverage = {
@@ -1035,7 +1055,7 @@ def run(ctx: Ctx) -> Outcome:
         'broadcast_programs_declined_by_bqskit_with_LangException': bq_rejected_broadcast,
         'rt_gates_failing_alone': info.get('rt_gates_failing_alone', []),
         'rt_spellings_not_exercised': uncovered_spellings(lib), 'exact_domain_undecided': undecided,
-        'samples': samples[:4] or [{'origin': all_cases[0]['origin'], 'text': all_cases[0].get('src', '')}],
+        'samples': samples[:5] or [{'origin': all_cases[0]['origin'], 'text': all_cases[0].get('src', '')}],
         'checker_cmd': 'tlc -coverage 1 -config specs/qasm/QasmGen.cfg specs/qasm/QasmGen.tla; tlc -config specs/qasm/QasmCheck.cfg specs/qasm/QasmCheck.tla (TRACE_FILE=cases.json)',
         'trusted_base': ['TLC', 'printer text_of() and flatteners flat_bq()/flat_qk() in harness/checks/c17.py (cross-validated by Qiskit on every program)',
                          'harness/exact.py discretiser for the exact-domain tables'],
